@@ -21,18 +21,15 @@ package jsonclient
 //@ func (*backoff).set
 //@ props C13
 //@ site time.Now#1 as n1
-//@ site time.Now#2 as n2
-//@ site time.Now#3 as n3
 //@ site After#1 as a1
-//@ site After#2 as a2
 //@ requires b != nil && b.multiplier <= 8
 //@ modifies b.multiplier, b.notBefore
 //@ ensures [multiplier-stays-capped] b.multiplier <= 8
 //@ ensures [in-backoff-iff-not-before-is-in-the-future] a1.res == (instant(old(b.notBefore)) > instant(n1.res))
-//@ ensures [server-pacing-while-backing-off] a1.res && override != nil ==> instant(b.notBefore) >= instant(n2.res) + mathint(old(*override)) && instant(b.notBefore) >= instant(old(b.notBefore))
+//@ ensures [server-pacing-while-backing-off] a1.res && override != nil ==> instant(b.notBefore) >= instant(n1.res) + mathint(old(*override)) && instant(b.notBefore) >= instant(old(b.notBefore))
 //@ ensures [never-extended-without-server-request] a1.res && override == nil ==> b.notBefore == old(b.notBefore) && b.multiplier == old(b.multiplier)
-//@ ensures [server-pacing-when-idle] !a1.res && override != nil ==> result == old(*override) && instant(b.notBefore) == instant(n3.res) + mathint(old(*override)) && b.multiplier == old(b.multiplier)
-//@ ensures [exponential-wait-capped-at-128s] !a1.res && override == nil ==> 1 <= b.multiplier && b.multiplier <= 8 && result == 1000000000 << (b.multiplier - 1) && result <= 128000000000 && instant(b.notBefore) == instant(n3.res) + mathint(result)
+//@ ensures [server-pacing-when-idle] !a1.res && override != nil ==> result == old(*override) && instant(b.notBefore) >= instant(n1.res) + mathint(old(*override)) && instant(b.notBefore) <= lastnow() + mathint(old(*override)) && b.multiplier == old(b.multiplier)
+//@ ensures [exponential-wait-capped-at-128s] !a1.res && override == nil ==> 1 <= b.multiplier && b.multiplier <= 8 && result == 1000000000 << (b.multiplier - 1) && result <= 128000000000 && instant(b.notBefore) >= instant(n1.res) + mathint(result) && instant(b.notBefore) <= lastnow() + mathint(result)
 //@ ensures [multiplier-grows-by-one-up-to-cap] !a1.res && override == nil ==> b.multiplier == (old(b.multiplier) < 8 ? old(b.multiplier) + 1 : 8)
 
 //@ func (*backoff).decreaseMultiplier
